@@ -167,6 +167,16 @@ def compare(exp: Any, act: Any) -> Optional[str]:
             nb = a.name.encode("utf-8") if isinstance(a.name, str) else a.name
             if nb != e.b:
                 return "%s: expected name %r, got %r" % (path, e.b, nb)
+            # one name, one object: the library hands out names that are valid UTF-8 as text and the others as bytes
+            # (psparser.PSLiteral), whatever spelling the file used - a bytes name for UTF-8 text is a different object
+            # from the one every other spelling of the same name yields
+            try:
+                e.b.decode("utf-8")
+                want_text = True
+            except UnicodeDecodeError:
+                want_text = False
+            if isinstance(a.name, str) != want_text:
+                return "%s: name %r handed out as %s" % (path, e.b, type(a.name).__name__)
         elif isinstance(e, bytes):
             if not isinstance(a, bytes) or a != bytes(e):
                 return "%s: expected string %r, got %r" % (path, bytes(e), a if not isinstance(a, PSKeyword) else a)
